@@ -2,17 +2,28 @@
 # tools/seed_matrix.sh : apply every stored seeded change in turn to a scratch worktree of /repo HEAD, run the
 # quick check of its property against that worktree, undo it. Writes /verif/seeded/MATRIX.md (which check
 # reports which change). /repo itself is never touched (VERIF_REPO, separate target dir).
+# Optional arguments: <part-name> <seed-name regex> - run only the matching seeds with scratch directories of their
+# own (/tmp/matrix_wt_<part> ...) and write seeded/MATRIX.<part>.part; `tools/seed_matrix.sh merge` joins the parts
+# into MATRIX.md. Two or three parts can run next to each other.
 cd /verif || exit 2
-wt=/tmp/matrix_wt
+if [ "$1" = merge ]; then
+  { echo "| seed | property | applies | check exit | rules reported |"; echo "|---|---|---|---|---|"; cat seeded/MATRIX.*.part | grep -v '^| seed \|^|---' | sort; } > seeded/MATRIX.md
+  rm -f seeded/MATRIX.*.part; wc -l seeded/MATRIX.md; exit 0
+fi
+part=$1; filter=${2:-.}
+wt=/tmp/matrix_wt${part:+_$part}
 export CARGO_NET_OFFLINE=true
 if [ ! -d $wt ]; then git -C /repo worktree add -q --detach $wt HEAD || exit 2; fi
 ( cd $wt && git checkout -q --detach "$(git -C /repo rev-parse HEAD)" && git reset -q --hard && git clean -qfd ) || exit 2
-export VERIF_REPO=$wt CARGO_TARGET_DIR=/tmp/matrix_target IASTMC_BIN=/tmp/matrix_target/debug/iastmc VERIF_EVIDENCE_DIR=/tmp/matrix_evidence VERIF_REPLAY_DIR=/tmp/matrix_replays
+tg=/tmp/matrix_target${part:+_$part}
+export VERIF_REPO=$wt CARGO_TARGET_DIR=$tg IASTMC_BIN=$tg/debug/iastmc VERIF_EVIDENCE_DIR=/tmp/matrix_evidence${part:+_$part} VERIF_REPLAY_DIR=/tmp/matrix_replays${part:+_$part}
 out=/verif/seeded/MATRIX.md
+[ -n "$part" ] && out=/verif/seeded/MATRIX.$part.part
 echo "| seed | property | applies | check exit | rules reported |" > $out
 echo "|---|---|---|---|---|" >> $out
 for d in seeded/*/; do
   name=$(basename $d)
+  echo "$name" | grep -Eq "$filter" || continue
   prop=$(python3 -c "import json;print(json.load(open('$d/meta.json'))['property'])")
   if git -C $wt apply --check /verif/$d/patch.diff 2>/dev/null; then
     git -C $wt apply /verif/$d/patch.diff
